@@ -121,6 +121,10 @@ def check(col: Collector, tier: str):
         decl = [i for i, r in enumerate(acts) if r.kind == "declare-here" and r.what == "result_rep"]
         nested_after_push = [i for i, k in enumerate(kinds) if k == "nested" and ip < i < iq]
         okp = okp and len(decl) == 1 and decl[0] < ip and not nested_after_push and iq == len(acts) - 1
+    retained = sorted({f"line {r.ev.node.lineno}" for recs, _, _ in si.run(pan) for r in recs if r.kind == "nested-retained"})
+    col.add("C11.R2", pan.short, "arguments-translated-in-place", not retained,
+            f"arguments translated with retain_scope=True at {retained}: the block that uses the argument's C++ would be emitted at the scope "
+            "that was current before the argument opened its loop/if (e.g. First()), i.e. outside the loop whose variable it mentions", pan.loc)
     col.add("C11.R2", pan.short, "declare-result,translate-arguments,open,close", okp and n > 0,
             "order on every path: result declared at the calling scope, all arguments translated, block opened, block closed last", pan.loc)
     blk = [n_ for n_ in walk_no_nested(fn) if isinstance(n_, ast.Assign) and isinstance(n_.value, ast.Call) and call_name(n_.value) == "block"]
@@ -271,6 +275,8 @@ def check(col: Collector, tier: str):
         ok = ok and "ctyp.collection(ctyp.terminal(spec.cpp_return_type))" in src(coll[0].body) if coll else False
     col.add("C11.R8", bc.short, "per-use-result-variable-of-the-declared-type", bool(ok),
             "result_rep must be a lambda creating, per use, unique_name(spec.name) typed terminal(return type) - wrapped in a collection iff cpp_return_is_collection", bc.loc)
+    from sa.props.c10 import check_default_vector_type
+    check_default_vector_type(col, "C11.R8", repo)
     st_ = {src(n_.targets[0]).split(".")[-1]: src(n_.value) for n_ in walk_no_nested(bc.node) if isinstance(n_, (ast.Assign,)) and src(n_.targets[0]).startswith("r.")}
     aug = {src(n_.target).split(".")[-1]: src(n_.value) for n_ in walk_no_nested(bc.node) if isinstance(n_, ast.AugAssign) and src(n_.target).startswith("r.")}
     ok = st_.get("args") == "spec.arguments" and st_.get("result") == "spec.result" and aug.get("running_code") == "spec.code"
